@@ -180,7 +180,7 @@ class FrameQueue:
 
     def enqueue(self, frame: RF24NetworkFrame) -> bool:
         """Add a `RF24NetworkFrame` to the queue."""
-        if self.max_queue_size == len(self._queue):
+        if self.max_queue_size <= len(self._queue):
             return False
         for frm in self._queue:
             if (
